@@ -90,3 +90,16 @@ func (h VerifC12Conn) Snapshot() VerifC12Flow {
 	}
 	return f
 }
+
+// VerifC12TransportSnapshot reads the flow-control state of a Transport connection. Only call at quiescence.
+func VerifC12TransportSnapshot(cc *ClientConn) VerifC12Flow {
+	cc.mu.Lock()
+	defer cc.mu.Unlock()
+	f := VerifC12Flow{Valid: true, ConnOut: cc.flow.n, ConnInAvail: cc.inflow.avail, ConnInUnsent: cc.inflow.unsent,
+		MaxFrameSize: int32(cc.maxFrameSize), InitialSend: int32(cc.initialWindowSize)}
+	for id, cs := range cc.streams {
+		f.Streams = append(f.Streams, VerifC12Stream{ID: id, Out: cs.flow.n, InAvail: cs.inflow.avail, InUnsent: cs.inflow.unsent, BodyLen: cs.bufPipe.Len(), QueuedWrites: -1})
+	}
+	sort.Slice(f.Streams, func(i, j int) bool { return f.Streams[i].ID < f.Streams[j].ID })
+	return f
+}
